@@ -855,7 +855,7 @@ class Process(StateMachine, persistence.Savable, metaclass=ProcessStateMachineMe
         self._pausing = None
 
         # Create a future to represent the duration of the paused state
-        self._paused = persistence.SavableFuture()
+        self._paused = persistence.SavableFuture(loop=self._loop)
 
         # Save the current status and potentially overwrite it with the passed message
         self._pre_paused_status = self.status
